@@ -549,11 +549,19 @@ Definition d_covered (d : digest) : bool :=
 
 (* one fault-free round, judged on what was observed before it (d0) and during/after it *)
 Definition round_ok (log : list Z) (d0 : digest) (e : list dgram * digest) : bool :=
+  let d1 := snd e in
   let m0 := d_mu log d0 in
-  let m1 := d_mu log (snd e) in
+  let m1 := d_mu log d1 in
   (* progress: while something is missing, every round repairs at least one item *)
   (Nat.eqb m0 0 || Nat.ltb m1 m0)
   && (Nat.leb m1 m0)
+  (* a round leaves nothing in flight *)
+  && (d_net d1 =? 0)
+  (* nothing missing and nothing in flight: one round later everything is acknowledged and no
+     repair timer is armed *)
+  && (negb (Nat.eqb m0 0 && (d_net d0 =? 0)) || (d_acked d1 && d_calm d1))
+  (* nothing missing means: the reader holds all the writer still has, the rest is known *)
+  && (negb (Nat.eqb m1 0) || d_covered d1)
   (* silence: nothing missing, everything acknowledged, no timer armed => no datagram at all *)
   && (negb (Nat.eqb m0 0 && d_acked d0 && d_calm d0) || isnil (fst e)).
 Fixpoint rounds_ok (log : list Z) (d0 : digest) (l : list (list dgram * digest)) : bool :=
